@@ -297,7 +297,11 @@ void gvt_msg_drain(void)
 	while(thread_phase != thread_phase_idle) { // flush partial gvt algorithm
 		simtime_t gvt = gvt_phase_run();
 		if(unlikely(gvt != 0.0))
+			VH(VH_GVT_VALUE, NULL, VH_BITS(gvt), 1);
+		if(unlikely(gvt != 0.0))
 			stats_on_gvt(gvt);
+		if(unlikely(gvt != 0.0))
+			VH(VH_GVT_CONSUMED, NULL, VH_BITS(gvt), 1);
 		mpi_remote_msg_drain();
 	}
 	// announce the arrival only when idle: a waiting thread leaves as soon as everybody arrived and it is idle itself
@@ -306,7 +310,11 @@ void gvt_msg_drain(void)
 	    atomic_load_explicit(&drain_waiting, memory_order_acquire) != global_config.n_threads) {
 		simtime_t gvt = gvt_phase_run();
 		if(unlikely(gvt != 0.0))
+			VH(VH_GVT_VALUE, NULL, VH_BITS(gvt), 1);
+		if(unlikely(gvt != 0.0))
 			stats_on_gvt(gvt);
+		if(unlikely(gvt != 0.0))
+			VH(VH_GVT_CONSUMED, NULL, VH_BITS(gvt), 1);
 		mpi_remote_msg_drain();
 	}
 
